@@ -231,6 +231,13 @@ def cmdPositions (a : Args) : String :=
     pEdges := (listOf (get a "p")).map parseEdge, opOf := fun v => ops.getD v .other, nNodes := getNat a "nn" }
   s!"ok cnot={showPairs d.selectPossibleCnotPosition} meas={showPairs d.selectPossibleMeasurementPosition}"
 
+/-! ### evo.sort_by -/
+def cmdSortBy (a : Args) : String :=
+  let ks := (listOf (get a "keys")).map parseScore
+  if ks.any (·.isNone) then "err parse" else
+  let rows : List (Score × Nat) := (ks.map (·.getD .inf)).zipIdx
+  s!"ok order={joinOr "," ((sortRowsBy (fun r : Score × Nat => r.1) rows).map fun r => toString r.2)}"
+
 def dispatch (cmd : String) (a : Args) : Option String :=
   match cmd with
   | "evo.isclose" => some (cmdIsclose a)
@@ -240,6 +247,7 @@ def dispatch (cmd : String) (a : Args) : Option String :=
   | "evo.adapt" => some (cmdAdapt a)
   | "evo.choice" => some (cmdChoice a)
   | "evo.positions" => some (cmdPositions a)
+  | "evo.sort_by" => some (cmdSortBy a)
   | _ => none
 
 end Graphiq.CmdEvo
